@@ -13,9 +13,9 @@ def run(ctx):
         hs += rings.gen(ctx, S, True, nosem, d, "bfs", 0, True, "ox%d-%d" % (S, nosem))
     nx = len(hs)
     sizes = [1, 17, 4082, 4083, 4084, 4085, 8179, 8180, 12288] if q else \
-            [1, 2, 17, 100, 4070, 4082, 4083, 4084, 4085, 4086, 4087, 4088, 8178, 8179, 8180, 8181, 8183, 12275, 12288, 65536]
+            [1, 17, 100, 4082, 4083, 4084, 4085, 4087, 8179, 8180, 8183, 12288, 65536]
     for i, S in enumerate(sizes):
-        hs += rings.gen(ctx, S, True, i % 2, 40 if q else 80, "simulate", 150 if q else 3000, False, "os%d" % S)
+        hs += rings.gen(ctx, S, True, i % 2, 40 if q else 80, "simulate", 150 if q else 1200, False, "os%d" % S)
     for h in hs:
         h.extend(rings.drain(10))          # read the retained chunks back: they must be the newest ones, unbroken
     ctx.sample({"history": rings.to_lines(hs[0])})
